@@ -58,6 +58,18 @@ def base_specs():
     f['owner'] = _f('OneToOne', to='Anchor', null=True)
     b['Item'] = {'fields': f, 'db_table': 'custom_item'}
     specs['custom'] = b
+    b = OrderedDict()
+    b['Anchor'] = anchor()
+    b['Item'] = {'fields': OrderedDict([
+        ('name', _f('Text')),
+        ('count', _f('PositiveInteger', null=True, db_index=True)),
+        ('flag', _f('Boolean')),
+        ('ref', _f('OneToOne', to='Anchor', null=True)),
+        ('amount', _f('Decimal', max_digits=8, decimal_places=2, null=True)),
+        ('big', _f('BigInteger', unique=True)),
+        ('when', _f('DateTime', null=True)),
+    ])}
+    specs['types'] = b
     return specs
 
 
@@ -86,6 +98,11 @@ def mutation_alphabet(spec):
     A.append({'op': 'change', 'model': 'Item', 'name': 'ref', 'attrs': {'db_index': False}})
     A.append({'op': 'change', 'model': 'Item', 'name': 'memo', 'attrs': {'max_length': 50}, 'initial': 'n/a'})
     A.append({'op': 'change', 'model': 'Item', 'name': 'memo', 'attrs': {'null': False}, 'initial': ''})
+    A.append({'op': 'change', 'model': 'Item', 'name': 'amount', 'attrs': {'null': False}, 'initial': 0})
+    A.append({'op': 'change', 'model': 'Item', 'name': 'big', 'attrs': {'unique': False}})
+    A.append({'op': 'delete', 'model': 'Item', 'name': 'when'})
+    A.append({'op': 'add', 'model': 'Item', 'name': 'price', 'field': _f('Decimal', max_digits=6, decimal_places=1, null=True)})
+    A.append({'op': 'add', 'model': 'Item', 'name': 'pos', 'field': _f('PositiveInteger'), 'initial': 5})
     for fname in ('name', 'count', 'flag', 'ref'):
         A.append({'op': 'delete', 'model': 'Item', 'name': fname})
     A.append({'op': 'rename', 'model': 'Item', 'name': 'name', 'new': 'title'})
@@ -273,7 +290,7 @@ def signature(rec):
     """Identity of a finding: base model set | kinds of mutations involved | kinds of difference.
     Coarser than the program, finer than the root cause."""
     import re
-    kinds = sorted(set(k.split(':')[0] if not k.startswith('exec') else re.sub(r': .*', '', k)
+    kinds = sorted(set(k.split(':')[0] if not k.startswith(('exec', 'gen')) else re.sub(r': .*', '', k)
                        for k in rec.get('diff_kinds', [])))
     ops = ' + '.join(sorted(set(op_kind(m) for m in rec['muts'])))
     if '/r' in rec['id']:
@@ -319,7 +336,17 @@ def analyse(args):
                 rec['crash'] = True
                 return rec
             if not isinstance(e, FieldDoesNotExist):
-                raise
+                # the real generator crashed on a program it accepted (no evolution error)
+                if prop != 'C01':
+                    rec['status'] = 'invalid'
+                    rec['detail'] = 'generator crashed (reported under C01): %s' % type(e).__name__
+                    return rec
+                rec['status'] = 'violation'
+                rec['detail'] = 'generating the SQL failed: %s: %s' % (type(e).__name__, str(e)[:150])
+                rec['replay'] = {'reproduced': True, 'kind': 'generation'}
+                rec['diff_kinds'] = ['gen:%s' % type(e).__name__]
+                rec['signature'] = signature(rec)
+                return rec
             # a Meta option naming a field that does not exist (any more): Django itself rejects
             # such models, so the program has no "freshly created" counterpart
             rec['status'] = 'invalid'
